@@ -52,9 +52,9 @@ claimed["C04"] = (
 
 claimed["C08"] = (
     "Bounded symbolic verification of the packet log / cleaner / RestoreSession kernel against a ghost log under a VIRTUAL CLOCK: histories of 1..2 (quick) / 1..3 (thorough) broadcasts of four addressing kinds, "
-    "disconnect point d, clean-up passes after the disconnect (0..1) and before the restore (0..2) executed by running the real cleaner goroutine body (its time.Sleep is gated), and the time elapsed between "
+    "disconnect point d, the client's offset = ANY addressed packet before the disconnect (it may lag), symbolic time between the last packet and the moment the disconnect is noticed, clean-up passes after the disconnect (0..1) and before the restore (0..2) executed by running the real cleaner goroutine body (its time.Sleep is gated), and the time elapsed between "
     "all steps as SYMBOLIC durations (0..4 units each, decided by the solver, not enumerated). Asserts: recovered => exactly the addressed packets after the offset, in order, none twice (no gap); session older "
-    "than the window => not recovered; session and log entries younger than the window => recoverable whatever the passes; unknown pid / offset => not recovered; only plain events are logged. "
+    "than the window => not recovered; session and log entries younger than the window => recoverable whatever the passes; unknown pid / offset => not recovered, the adapter's mutex free and the adapter usable afterwards; only plain events are logged. "
     "Glue: the client records the trailing offset argument iff it holds a session id and strips it before the handler; a recovered server socket re-joins exactly its persisted rooms and re-sends exactly the missed packets in order.",
     "Outside the claim: instants exactly at the window boundary (durations are multiples of 100ms against a 250ms window), binary packets through the real encoder (frames are opaque), several sessions on one log, time overflow. Native replay approximates cleaner passes with a 2ms period.",
     "5 (C08)")
@@ -80,7 +80,7 @@ claimed["C15"] = (
     "draw r in [0,1) symbolic; attempt number concretised (quick: 0,31,62,63 - one per regime: exact, int64 wrap of min*2^k, float->int overflow at 2^63; thorough: every 0..70): 0 < delay <= max, first delay == min "
     "without jitter, attempt accounting; (all (min,max), k <= 40, no overflow) delays do not decrease without jitter. FP queries are decided by fresh z3 processes, cvc5 / z3 5.1 as fall-back. (2) Reconnect state "
     "machine (real Manager.reconnect/connect/onReconnect with the network dial cut) for every attempt limit N in 0..4 and every outage length j in 0..5: dials exactly min(j+1,N) times, reconnect_failed exactly once "
-    "after N failures (disconnected, back-off reset, no reconnect), reconnect exactly once with the successful attempt's number otherwise, attempts numbered 1,2,3.. . (3) Offline buffer: 1..3/4 emits while "
+    "after N failures (disconnected, back-off reset, no reconnect), reconnect exactly once with the successful attempt's number otherwise, attempts numbered 1,2,3.. ; a stop (Manager.Close) after 0..3 computed delays of a cycle followed by a new open with the server still down starts a full cycle of its own (N attempts, one reconnect_failed). (3) Offline buffer: 1..3/4 emits while "
     "disconnected with symbolic volatile flags and 1..2 frames each, then emitBuffered twice: exactly the non-volatile emits' frames, in order, once; volatile dropped; second flush sends nothing.",
     "Outside the claim: max above 2^53 ns (float64(max) may round up past max), attempt numbers above 70, real timers / outages / black-holed dials, the retry queue (clientPacketQueue), ack-carrying offline emits "
     "(C03 covers their timeout). math.Pow is evaluated natively on concrete operands; float->int conversion follows amd64. One jitter-bound assertion (delay <= 2*min at attempt 0) stayed unknown on all three solvers at 60 s and is not claimed.",
@@ -133,7 +133,8 @@ claimed["C06"] = (
     "termination causes concurrently - every pair of {transport close, client DISCONNECT, server namespace disconnect, server connection close, server shutdown} - under all interleavings at synchronisation points "
     "(preemption bound 1 quick / 2 thorough): its disconnect handler runs exactly once with the reason of a cause that occurred; afterwards the namespace's socket list, the connection's socket list and every room "
     "have forgotten it, it is disconnected, no mutex is left held; (2) the connection dies at any point while a CONNECT is being admitted through a (yielding) namespace middleware: afterwards the namespace lists no "
-    "socket of the dead connection and no room keeps its id. Counterexample schedules are replayed natively through instrumented copies of the package's files.",
+    "socket of the dead connection and no room keeps its id; (3) one termination cause races a Join from another goroutine or a SocketsJoin of an operator (preemption bound 2): afterwards the socket is in no room "
+    "and nothing lists it (found a genuine race of Join against the teardown, repaired: DESIGN.md 0.4). Counterexample schedules are replayed natively through instrumented copies of the package's files.",
     "Outside the claim: cutting the TCP stream at byte k, real ping timers, the Engine.IO-level close paths and session-id lookup (C17 covers 'closed sid => error 1'), upgrades in flight, connection state recovery on close.",
     "5 (C06)")
 
@@ -141,10 +142,11 @@ claimed["C02"] = (
     "Bounded model checking of the two order kernels under all interleavings at synchronisation points (preemption bound 2): (a) wire order / contiguity: two producer goroutines hand packets of 1..3 frames to the "
     "connection's real send path (serverConn.sendBuffers -> packetQueue.add), one of them two packets in a row, while a consumer drains with the real poll: every frame is on the wire exactly once, the frames of a "
     "packet are contiguous and in frame order, packets of one goroutine keep their order; (b) handler-entry order: two EVENT packets (the first optionally binary with an attachment) arriving in one Engine.IO payload "
-    "through the real serverConn.onEIOPacket -> onParserFinish -> serverSocket.onPacket -> handler. (b) is VIOLATED on this code base - each decoded packet is dispatched on its own goroutine - and is recorded as "
-    "a known finding (DESIGN.md 0.4, F14), identified by its site so that any other order violation is still reported.",
-    "Outside the claim: more than 2 producers / longer bursts (argument: the critical section is one mutex-protected append), the client-side dispatch (client_manager.go:onParserFinish, same pattern, unless its harness is listed), "
-    "reordering between two physical transports during an upgrade, real transports.",
+    "through the real serverConn.onEIOPacket -> onParserFinish -> serverSocket.onPacket -> handler, and the same on the client through Manager.onEIOPacket: the handlers are entered in packet order "
+    "(this was violated on the pinned commit - one goroutine per decoded packet - first recorded as a known finding, then repaired, DESIGN.md 0.4 F14); (c) after an upgrade: two two-frame events (one queued on the real "
+    "polling transport or both concurrent) around the real Engine.IO upgradeTo: every frame exactly once on the new transport, the frames of each event adjacent and in order.",
+    "Outside the claim: more than 2 producers / longer bursts (argument: the critical section is one mutex-protected append), more than two events per payload, "
+    "reordering between two physical transports on the client side of an upgrade, real transports.",
     "5 (C02)")
 
 claimed["C05"] = (
@@ -152,7 +154,8 @@ claimed["C05"] = (
     "(thorough) symbolic comma-free bytes on every packet type - look-alike and prefix names are cases of one symbolic name; (2) routing: a connection that joined a symbolic subset of {/, /a}, a packet of ANY type "
     "addressed to /, /a, /b (existing, not joined), /zz (not existing) or '' through the real serverConn.onEIOPacket/onParserFinish: dispatched only to the socket of exactly that namespace; non-CONNECT for a namespace "
     "without a socket, or CONNECT for one already joined, closes the connection and reaches nobody; CONNECT for an existing unjoined namespace attaches the client there and nowhere else; DISCONNECT leaves the other "
-    "namespaces connected; (3) per-namespace adapters, rooms and ack-id counters; a namespace broadcast reaches only that namespace's socket; disconnecting one namespace keeps the other's socket and rooms.",
+    "namespaces connected; (3) per-namespace adapters, rooms and ack-id counters; a namespace broadcast reaches only that namespace's socket; disconnecting one namespace keeps the other's socket and rooms; (4) attach only after acceptance: while the middleware of a requested namespace is still deciding (it even joins a room), broadcasts to that "
+    "namespace and to that room put nothing on the connection, the socket is not listed, the traffic of the attached namespace goes on; acceptance attaches, refusal attaches nothing and nothing is ever sent for it.",
     "Outside the claim: the client-side router (Manager.onParserFinish), interleavings of CONNECT replies (sequential here), everything JSON.",
     "5 (C05)")
 
@@ -160,9 +163,12 @@ claimed["C16"] = (
     "Bounded model checking of operation GROUPS (a narrow slice of the statement, which quantifies over all programs): for each group two goroutines perform one operation each - every pair of operations of the group - "
     "under all interleavings at synchronisation points (preemption bound 2; server-socket group 1 quick / 2 thorough), and the executor's monitors must stay silent: happens-before data race on any heap cell, map or "
     "slice element (vector clocks; confirmed natively with `go test -race`), a goroutine left blocked with nobody to release it, a mutex left held, unlock of an unlocked mutex, an escaping panic. Groups: G1 handlerStore "
-    "on/once/off/offAll/forEach/getAll with a handler that removes itself while dispatched; G2 eventHandlerStore on/once/off/offAll/getAll; G3 packetQueue add/get/reset/close (+ a parked poller); G7 serverSocket "
-    "Join/Leave/registerAckHandler/onAck/onClose/Disconnect/Rooms on a connected socket of the server world.",
-    "Outside the claim: everything not in a listed group (adapters under re-entrant callbacks, session-aware adapter, client socket, Engine.IO sockets, Manager), more than 2 goroutines, GOMAXPROCS effects, "
+    "on/once/off/offAll/forEach/getAll with a handler that removes itself while dispatched; G2 eventHandlerStore on/once/off/offAll/getAll; G3 packetQueue add/get/reset/close (+ a parked poller); G4 clientSocket (real constructor) Emit plain / with ack / volatile, OnEvent, OffEvent, an incoming event, an incoming ACK whose callback emits again, Disconnect; "
+    "G6 namespace-wide Emit / To(room).Emit / SocketsJoin / SocketsLeave / FetchSockets / DisconnectSockets / Sockets (quick: one operation, thorough: every pair) racing a client being admitted through a middleware that joins a room, on the "
+    "admitted socket's namespace or another one; G8 Engine.IO server socket (real newServerSocket, ping loop running) Send / Close / onPong / TransportName / incoming CLOSE / upgradeTo / transport close; G7 serverSocket "
+    "Join/Leave/registerAckHandler/onAck/onClose/Disconnect/Rooms on a connected socket of the server world; session-aware adapter: RestoreSession (unknown session / unknown offset / good offset) against Broadcast and "
+    "PersistSession, three goroutines, then the adapter must still work.",
+    "Outside the claim: everything not in a listed group (adapters under re-entrant callbacks beyond C04_concurrent, the Engine.IO client socket, Manager Open/Close against the network), more than 2 goroutines, GOMAXPROCS effects, "
     "the race detector's view of stdlib / third-party internals, unbounded programs. Code between two synchronisation operations is executed atomically, which is sound only if it is race-free - that proviso is what the race monitor checks.",
     "5 (C16)")
 
@@ -170,7 +176,7 @@ claimed["C14"] = (
     "Bounded symbolic execution of the two heartbeat loops under a VIRTUAL clock (discrete-event semantics in the executor: time advances through time.Sleep, through the peer model's symbolic answer delays, and by "
     "jumping to the earliest pending time.After deadline when nothing else can run; comparisons of symbolic instants are decided by the solver). Server: the real serverSocket.pingPong started by newServerSocket with "
     "pingInterval and pingTimeout SYMBOLIC in [100ms,300ms] (the loop is scale-free; the property's 1s..3s is the same kernel), a peer that answers the first 0..2 (quick) / 0..3 (thorough) pings after symbolic delays "
-    "strictly below pingTimeout and is then black-holed: never closed while pongs arrive in time, exactly one more ping per answered ping, closed exactly once with ReasonPingTimeout, no later than pingInterval + "
+    "strictly below pingTimeout (the answer may overtake the pinging goroutine at any synchronisation point: real thread scheduling with one preemption) and is then black-holed: never closed while pongs arrive in time, exactly one more ping per answered ping, closed exactly once with ReasonPingTimeout, no later than pingInterval + "
     "pingTimeout after the last sign of life and not before pingTimeout without a pong, transport closed. Client: the real handleTimeout re-armed by pings through the real handlePacket: never closes while ping gaps "
     "stay below pingInterval+pingTimeout, closes with the ping-timeout reason exactly pingInterval+pingTimeout after the last ping, every ping answered with a pong.",
     "Outside the claim: wall-clock behaviour and OS scheduling latency (virtual time has none; native replay allows 60ms slack and only confirms violations larger than that), transports, proxies, one-directional loss, "
@@ -182,7 +188,7 @@ claimed["C07"] = (
     "long-polling transport, new = recording; one goroutine sends two numbered messages through the socket, one runs the real upgradeTo, optionally one plays a poll request pending on the old transport, under all "
     "interleavings at synchronisation points (preemption bound 2, 4496 schedules): every message delivered exactly once (poll response or new transport), none left in the discarded transport's queue, same-route "
     "order kept, later sends use the new transport; (2) server candidate handling through the real maybeUpgrade (entered on its WebTransport branch so the candidate can be a recording transport) with a symbolic "
-    "scenario - probe PING then UPGRADE / any other packet type / candidate closes / silence until the upgrade timer fires (virtual clock): pong 'probe' on the candidate, UPGRADE completes the swap; every failure "
+    "scenario - probe PING then UPGRADE (with a backlog queued on the old transport whose flush to the new one takes ANY time up to 3x UpgradeTimeout: the upgrade timer must not touch the new transport) / any other packet type / candidate closes / silence until the upgrade timer fires (virtual clock): pong 'probe' on the candidate, UPGRADE completes the swap; every failure "
     "closes ONLY the candidate, the socket stays open on its original transport and keeps sending there; (3) client: the real tryUpgradeTo/finishUpgradeTo with the candidate answering pong 'probe' / another pong / "
     "another packet / nothing: UPGRADE is the first packet on the new transport, old transport discarded once, later messages on the new one; failures and the timeout leave the original transport in place, the socket open and working; "
     "(4) client swap race: a Send from another goroutine racing the real finishUpgradeTo under all interleavings: sent exactly once and never ahead of UPGRADE on the new transport.",
